@@ -199,6 +199,7 @@ VERSION_EXTRAS = ["2", "2.00", "02.0", "2.0.0.0", "2.2.0.1", "1.4.0.0", "1.04", 
                   "1.4", "99999999999999999999.1", "2.00000000000000000000000001", "20.04", "2024.1.1",
                   "2.0-beta", "2.0b1", "v2.0", " 2.0", "2.0 ", "2.0.", ".2.0", "2..0", "2,0", "abc", "", "None",
                   "latest", "dev", "stable", "beta", " dev ", "vdev", "dev.", "Vlatest", "Latest", "1.4a", "2.x", "٢.٠", "2.0\n", "0x20", "1e1", "-2.0", "+2.0", "2.0.0-rc1",
+                  "7 .", "2 .", "7..", "2..", "2\t.", "4. .", " 2 .", "v4..", "14 .", "2.0 .", "2.0..", "1.4 .",
                   2.0, 1.5, 2.2, 1.3, 2.25, 0.0, 2, 1, 0, 3, 14, True, False, None]
 
 OPTION_POOLS = {
@@ -301,6 +302,21 @@ def py_str(v):
     return str(v)
 
 
+_refused_cache = []
+
+
+def _refused():
+    if not _refused_cache:
+        from awesomeversion import AwesomeVersionStrategy
+        from harness.translate import signatures
+        try:
+            r = signatures.live_refused_strategies()
+        except Exception:
+            r = set()
+        _refused_cache.append(r or {AwesomeVersionStrategy.SPECIALCONTAINER})
+    return _refused_cache[0]
+
+
 def oracle_tokens(s):
     """The library's verdicts for every comparison the model may ask about the non dotted numeric string s."""
     if DOTTED.match(s):
@@ -310,7 +326,9 @@ def oracle_tokens(s):
     import operator
     from awesomeversion import AwesomeVersion, AwesomeVersionCompareException, AwesomeVersionStrategy
     out = []
-    if AwesomeVersion(s).strategy == AwesomeVersionStrategy.SPECIALCONTAINER:
+    # oracle `cont`: is_version refuses this string because of its awesomeversion strategy (SPECIALCONTAINER
+    # words since b5ee08d, forms of UNKNOWN strategy that cannot be compared since the fix of finding D22)
+    if AwesomeVersion(s).strategy in _refused():
         out.append("c:" + enc_str(s))
     for i, op in enumerate(OPS):
         f = getattr(operator, op)
@@ -899,7 +917,11 @@ def version_values(ctx):
         elif k < 0.85:
             s = random_dotted(rng)
             i = rng.randrange(len(s) + 1)
-            vals.append(s[:i] + rng.choice(["-", "a", " ", ".", "v", "rc1", "+", "٣", "\n"]) + s[i:])
+            s = s[:i] + rng.choice(["-", "a", " ", ".", "v", "rc1", "+", "٣", "\n"]) + s[i:]
+            if rng.random() < 0.4:      # a second edit (e.g. blank + trailing dot: forms a library cannot compare)
+                j = rng.randrange(len(s) + 1)
+                s = s[:j] + rng.choice(["-", " ", ".", ".", "\t", "_", "+"]) + s[j:]
+            vals.append(s)
         else:
             vals.append(text.payload(rng)[:12])
     return vals, n_grid
